@@ -165,7 +165,23 @@ func (g *Gen) Valid() *Request {
 	doc, h := g.validDoc()
 	body := render(doc)
 	kind := "valid"
-	switch g.T.Weighted(12, 2, 1) {
+	switch g.T.Weighted(12, 2, 1, 3) {
+	case 3:
+		// another representative of the same field element as input hash: h + k*r below 2^256 (the
+		// public input is an element of the scalar field; what an on-chain caller holds is the 256-bit
+		// digest or its reduction, and both name the same batch)
+		rep := new(big.Int).Set(h)
+		for k := 1 + g.T.Draw(5); k > 0; k-- {
+			if n := new(big.Int).Add(rep, oracle.R); n.BitLen() <= 256 {
+				rep = n
+			}
+		}
+		b, _ := json.Marshal(doc)
+		var m map[string]any
+		json.Unmarshal(b, &m)
+		m["inputHash"] = hx(rep)
+		body = render(m)
+		kind = "valid/unreduced-input-hash"
 	case 1:
 		// the same numbers with upper-case hexadecimal digits (still 0x-hexadecimal notation)
 		body = upperHexDigits(body)
